@@ -21,7 +21,16 @@ PLAN = {
                 oracle=lambda h: T.fix_cases(h, False)[1] + [("C17",) + f[1:] for f in T.oracle_components(h) if f[0] == "C02"],
                 slices=["fixrun", "comp"], ref="§7 C17"),
     "C16": dict(families=[("skin", 30, 300)], oracle=lambda h: T.skin_cases(h)[1], slices=["skin"], ref="§7 C16"),
+    "C06": dict(families=[("asset", 36, 360)], oracle=lambda h: T.oracle_assets(h), slices=["asset"], ref="§7 C06"),
     "C08": dict(families=[("fault", 96, 768)], oracle=lambda h: T.oracle_fault(h), slices=["fault"], ref="§7 C08"),
+}
+
+# properties whose unbounded theorems cover only part of the statement (what is missing is decided by the
+# correspondence + oracle on every run and spelled out in MANIFEST.json / DESIGN.md)
+PARTIAL = {
+    "C01": "convergence is proved for spawn epochs (with clients leaving); histories with despawns from arbitrary peers: step laws only",
+    "C09": "the numeric message bound is proved for host-writer epochs; for client-writer epochs only 'no echo' is proved",
+    "C10": "the sub-sequence theorem is proved for host-writer epochs; client-writer epochs through the relay are not",
 }
 
 TRUSTED = [
@@ -53,7 +62,7 @@ def slice_lines(h, kind, flags):
 
 def read_flags():
     flags = {}
-    for f in ("Sync.lean", "Guards.lean", "Conn.lean"):
+    for f in ("Sync.lean", "Guards.lean", "Conn.lean", "Asset.lean"):
         p = os.path.join(C.LEAN, "BevySyncModel", "Generated", f)
         if os.path.exists(p):
             for m in re.finditer(r"def (\w+) : Bool := (true|false)", open(p).read()):
@@ -124,11 +133,15 @@ def check(prop_id, tier, seed, replay=None):
             for l in T.conn_lines(h, flags.get("connClientDisconnectLegacy", False)):
                 inst_of[l.split(" ")[1]] = (h, {})
                 lines.append(l)
+        if "asset" in plan["slices"]:
+            for l in T.asset_lines(h, flags.get("assetTokensCounted", True), flags.get("assetRequestSkipsServed", False)):
+                inst_of[l.split(" ")[1]] = (h, {})
+                lines.append(l)
         if "fixrun" in plan["slices"]:
             for l in T.fix_cases(h, flags.get("fixReinsertsValue", False))[0]:
                 inst_of[l.split(" ")[1]] = (h, {})
                 lines.append(l)
-        for kind in [k for k in plan["slices"] if k not in ("fault", "skin", "fixrun", "filter", "conn")]:
+        for kind in [k for k in plan["slices"] if k not in ("fault", "skin", "fixrun", "filter", "conn", "asset")]:
             for inst, ls, meta in slice_lines(h, kind, flags):
                 if ls is None:
                     skipped += 1
@@ -214,7 +227,7 @@ def check(prop_id, tier, seed, replay=None):
     distinct = set()
     for h in histories:
         sig = json.dumps([(e.get("op"), e.get("peer"), e.get("ty")) for e in h.events if e["ev"] in ("op", "phase")])
-        if sum(1 for e in h.events if e["ev"] == "op" and e["op"] in ("write", "spawn", "despawn", "set_parent")) >= 2:
+        if sum(1 for e in h.events if e["ev"] == "op" and e["op"] in ("write", "spawn", "despawn", "set_parent", "asset_insert")) >= 2:
             distinct.add(C.digest(sig))
     thms = proof.get("theorems", [])
     sample = history_summary(histories[0], 12) if histories else {}
@@ -237,7 +250,7 @@ def check(prop_id, tier, seed, replay=None):
             "input_distribution": dist,
             "known_findings_replayed": len(known_lines),
             "build_s": {"lean": proof.get("build_s"), "harness": hbuild_s},
-            "partial": False,
+            "partial": prop_id in PARTIAL, "partial_what": PARTIAL.get(prop_id),
         },
         "assumptions": ["single writer per key between drains (the property excludes simultaneous conflicting writes)",
                         "the component type is registered on every peer and not excluded"],
